@@ -29,7 +29,7 @@ def install(ctx):
 def cases(ctx):
     rng = ctx.rng
     for i in range(ctx.n(9000, 20000)):
-        pos, neg, kind = gen.scores(rng, min_pos=1, min_neg=1, maxn=20)
+        pos, neg, kind = gen.scores(rng, min_pos=1, min_neg=1, maxn=20, big=bool(ctx.tier == "thorough" and rng.random() < 0.05))
         ep, en = gen.easy(rng)
         sc, ec = gen.cfg(rng)
         kw = {}
